@@ -10,6 +10,15 @@ import (
 // which the dispatcher matches as ESC a).
 func zzKeyRune(name string, meta bool) rune {
 	r := zzverif.Rune(name)
+	if zzverif.Param("mac") == "1" {
+		// macro tables: also the backslash (macro bodies are stored unescaped)
+		if meta {
+			zzverif.Assume(r == 'a' || r == 'b' || r == 0x1b || r == 0x18 || r == 0xe1 || r == '\\')
+		} else {
+			zzverif.Assume(r == 'a' || r == 'b' || r == 0x1b || r == 0x18 || r == '\\')
+		}
+		return r
+	}
 	if meta {
 		zzverif.Assume(r == 'a' || r == 'b' || r == 0x1b || r == 0x18 || r == 0xe1)
 	} else {
